@@ -1020,12 +1020,23 @@ def register(I):
     def join(I, st, args, info):
         parts = seq_of(I, args[0], st)
         sep = as_str_items(I, args[1], st) if len(args) > 1 else ()
-        out = []
+        # parts may be guarded unions of strings (text that was escaped depending on symbolic characters): cross product
+        alts = [(True, [])]
         for i, p_ in enumerate(parts):
-            if i:
-                out.extend(sep)
-            out.extend(as_str_items(I, p_, st))
-        return StringV(out)
+            pv = deref_all(I, p_, st)
+            nxt = []
+            for g, acc in alts:
+                for g2, x in alts_of(pv):
+                    gg = b_and(g, g2)
+                    if gg is False:
+                        continue
+                    nxt.append((gg, acc + (list(sep) if i else []) + list(as_str_items(I, x, st))))
+            alts = nxt
+            if len(alts) > 4096:
+                raise Unsupported("join of too many string alternatives")
+        if len(alts) == 1:
+            return StringV(alts[0][1])
+        return merge_many([(g, StringV(o)) for g, o in alts])
 
     @reg("Extend::extend")
     def extend(I, st, args, info):
